@@ -275,6 +275,9 @@ func (l *lexer) acceptWS() {
 		} else if strings.HasPrefix(l.input[l.pos:], str_comment_inline_start) {
 			for {
 				l.next()
+				if l.isEof() {
+					break
+				}
 				if l.input[l.pos] == '\n' {
 					l.pos++
 					break
